@@ -106,7 +106,7 @@ func c06Lanes(c *Ctx, W int) {
 		for _, e := range src.A.Elems {
 			e.(*bitdom.BV).Signed = true
 		}
-		ex, err := in.Call(inFn, []bitdom.Val{&bitdom.Ptr{Cell: &bitdom.Cell{V: s}}, src, bitdom.ConstBV(uint64(idx), W, false)})
+		ex, err := in.Call(inFn, laneArgs(inFn, W, &bitdom.Ptr{Cell: &bitdom.Cell{V: s}}, src, idx))
 		if err != nil || ex.Panic {
 			note("in(idx=%d): %v", idx, err)
 			return
@@ -182,7 +182,7 @@ func c06Lanes(c *Ctx, W int) {
 		for _, e := range dst.A.Elems {
 			e.(*bitdom.BV).Signed = true
 		}
-		ex, err := in.Call(outFn, []bitdom.Val{&bitdom.Ptr{Cell: &bitdom.Cell{V: s}}, dst, bitdom.ConstBV(uint64(idx), W, false)})
+		ex, err := in.Call(outFn, laneArgs(outFn, W, &bitdom.Ptr{Cell: &bitdom.Cell{V: s}}, dst, idx))
 		if err != nil || ex.Panic {
 			note("out(idx=%d): %v", idx, err)
 			return
@@ -365,7 +365,9 @@ func c06Sponge(c *Ctx) {
 				var inCall, trCall ssa.CallInstruction
 				for _, ci := range ana.Calls(fn) {
 					t := b.CallTermAt(ci)
-					if matches("call<"+inName+">(_, slice(load(iaddr(p1, bin<+>(ind<+1>(-1), 1))), ind<+243>(0), none), conv<uint>(bin<+>(ind<+1>(-1), 1)))", t) {
+					// in(src[k][i:], k), or the whole lane with the block offset: in(src[k], i, k)
+					if matches("call<"+inName+">(_, slice(load(iaddr(p1, bin<+>(ind<+1>(-1), 1))), ind<+243>(0), none), conv<uint>(bin<+>(ind<+1>(-1), 1)))", t) ||
+						matches("call<"+inName+">(_, load(iaddr(p1, bin<+>(ind<+1>(-1), 1))), ind<+243>(0), alt(bin<+>(ind<+1>(-1), 1), conv<uint>(bin<+>(ind<+1>(-1), 1))))", t) {
 						inCall = ci
 					}
 					if ci.Common().StaticCallee() != nil && ci.Common().StaticCallee() == curlMethod {
@@ -428,7 +430,8 @@ func c06Sponge(c *Ctx) {
 					if ci.Common().StaticCallee() != nil && ci.Common().StaticCallee() == curlMethod {
 						trCall = ci
 					}
-					if matches("call<"+outName+">(_, slice(load(iaddr(_, bin<+>(ind<+1>(-1), 1))), ind<+243>(0), none), conv<uint>(bin<+>(ind<+1>(-1), 1)))", t) {
+					if matches("call<"+outName+">(_, slice(load(iaddr(_, bin<+>(ind<+1>(-1), 1))), ind<+243>(0), none), conv<uint>(bin<+>(ind<+1>(-1), 1)))", t) ||
+						matches("call<"+outName+">(_, load(iaddr(_, bin<+>(ind<+1>(-1), 1))), ind<+243>(0), alt(bin<+>(ind<+1>(-1), 1), conv<uint>(bin<+>(ind<+1>(-1), 1))))", t) {
 						outCall = ci
 					}
 				}
@@ -628,4 +631,35 @@ func laneLoopHas(loops []rangeLoop, blk *ssa.BasicBlock) bool {
 		}
 	}
 	return false
+}
+
+// laneArgs builds the arguments of the lane routines in / out from their signature: the receiver, the trit slice,
+// and the lane index as the last integer parameter; an integer parameter before it is the trit offset into the
+// slice (0 here: the slice starts at the block).
+func laneArgs(fn *ssa.Function, W int, recv bitdom.Val, trits bitdom.Val, idx int) []bitdom.Val {
+	var ints []int
+	for i, p := range fn.Params {
+		if i == 0 {
+			continue
+		}
+		if bt, ok := p.Type().Underlying().(*types.Basic); ok && bt.Info()&types.IsInteger != 0 {
+			ints = append(ints, i)
+		}
+	}
+	args := make([]bitdom.Val, len(fn.Params))
+	for i, p := range fn.Params {
+		switch {
+		case i == 0:
+			args[i] = recv
+		case len(ints) > 0 && i == ints[len(ints)-1]:
+			bt := p.Type().Underlying().(*types.Basic)
+			args[i] = bitdom.ConstBV(uint64(idx), W, bt.Info()&types.IsUnsigned == 0)
+		case len(ints) > 1 && i == ints[0]:
+			bt := p.Type().Underlying().(*types.Basic)
+			args[i] = bitdom.ConstBV(0, W, bt.Info()&types.IsUnsigned == 0)
+		default:
+			args[i] = trits
+		}
+	}
+	return args
 }
